@@ -21,7 +21,7 @@ ASSUMPTIONS = [
     "operations are applied only to nodes that belong to the list (the property's precondition)",
     "the model is a python list of node identities; payloads are never compared by the oracle (only `is`)",
 ]
-NCASES = {"quick": 2400, "thorough": 60000}
+NCASES = {"quick": 8000, "thorough": 120000}
 NSHARDS = 16
 SHARD_TIMEOUT = {"quick": 600, "thorough": 3600}
 
